@@ -24,6 +24,9 @@ ASSUMED_CONTRACTS = {
 }
 
 NOT_APPLICABLE = {
+    "C11": "not reached in the time available: BGPsec validation needs OpenSSL replaced by environment contracts and bounded units over "
+           "rtr_bgpsec_validate_as_path; nothing is built for it (DESIGN.md section 4)",
+    "C12": "not reached in the time available: as C11 for rtr_bgpsec_generate_signature; nothing is built for it",
     "C08": "time-bounded liveness over unbounded fault histories with real sleeps: code contracts express no "
            "'eventually' and no inductive invariant within reach bounds convergence time; the safety ingredients "
            "(C05/C07 invariants, error states return to CONNECTING) are decided under those properties",
@@ -34,6 +37,120 @@ ENV_TRUSTED = [
     "lrtr_dbg has no effect on library state; pthread cancellation is not modelled",
 ]
 PROPS = {
+    "C01": {
+        "level": "other",
+        "explanation": "pfx_table_validate_r / pfx_table_validate are verified against RFC 6811 over the query's path for a path of any length "
+                       "the address width admits (IPv4 in the quick tier): VALID only if a covering node matches, INVALID only if some node "
+                       "covers and no covering node matches, NOT FOUND only if none covers ('for all nodes' through an arbitrary ghost "
+                       "node, inductive loop contract on the descent, trie_lookup and the element test replaced by their contracts); "
+                       "trie_lookup returns the first covering node (loop contract); bit extraction, address equality and zero test "
+                       "against a 32/128-bit spec for all inputs; the element test for arrays of any length (no-match direction) and up "
+                       "to 4 elements (match direction); the path lemma for all prefixes ties 'covering' to 'on the path'. "
+                       "Level 'other': IPv6 path units run in the thorough tier only; the reason list is not decided; that every "
+                       "mutator keeps covering records on the path is shown bounded (trie shapes of 2-3 levels, units shape_*).",
+        "trusted": ["executable contract stubs of lrtr_ip_addr_get_bits / _is_zero / _equal (contracts proved by the l0_* units)"],
+        "assumptions": ["well-formed table: lengths <= address width, a node at depth d has length >= d (maintained by the mutators, C02)"],
+    },
+    "C02": {
+        "level": "other",
+        "explanation": "Exact lookup (trie_lookup_exact: first node equal to the key, or the insertion parent; any path length, loop contract), "
+                       "element arrays of any length (find = first equal element in AS/max length/source, delete shifts exactly the "
+                       "tail and restores on failure, append keeps the old elements; loop contracts with ghost index), the path lemma "
+                       "(complete), and the real recursive trie_insert / trie_remove on EVERY trie shape of 2 (quick) / 3 (thorough) "
+                       "levels below the node operated on: payload multiset, 'children not shorter than parent', parent links and "
+                       "'each node hangs on the side its own bit selects' are preserved (bounded). Whole-table operation histories "
+                       "(add/remove/remove-by-source/enumerate against the mathematical set) run in the thorough tier only (pfx_hist).",
+        "trusted": ["executable contract stubs of the ip functions; lrtr_realloc modelled as in-place resize or failure"],
+        "assumptions": ["pfx_table_add / pfx_table_remove / pfx_table_src_remove / enumeration as compositions of the verified pieces are covered "
+                        "only by the thorough-tier history unit"],
+    },
+    "C03": {
+        "level": "other",
+        "explanation": "Modular pieces of the payload phase, each complete: the record built from a prefix / router-key PDU equals the PDU's "
+                       "fields (all bytes); rtr_update_pfx_table / rtr_update_spki_table apply exactly that record (announce = add, "
+                       "withdraw = remove), and on duplicate / unknown withdrawal / invalid flags / table error change nothing and "
+                       "request the right Error Report; the undo functions are the inverse table operations; buffering appends or "
+                       "fails without effect. The composition (receive loop, apply/undo loops, reload, clean-up of "
+                       "rtr_sync_receive_and_store_pdus) against 'all or nothing' is a bounded stand-in that runs in the THOROUGH tier "
+                       "only (units store_*: payload shapes of 1-4 PDUs + any terminal event); CBMC needs tens of minutes to hours for it.",
+        "trusted": ["tables replaced by the executable client reading of the C02/C10 contracts (env/ghost_tables.h)"],
+        "assumptions": ["quick tier: the apply/undo loops themselves are not executed by any unit (defect in them was found by reading and "
+                        "demonstrated natively, see known_findings.json)"],
+    },
+    "C06": {
+        "level": "other",
+        "explanation": "Sequential protocol only (contracts have no threads): pfx_table_swap exchanges exactly the roots with both WRITE locks "
+                       "held at every access and released on return (complete; roots are parked as junk outside critical sections so an "
+                       "unlocked access breaks the postcondition); thorough tier: during a reload no add/remove reaches the live tables "
+                       "before the swap and each table is swapped exactly once (units store_*). The interleaving argument (rwlock mutual "
+                       "exclusion => a reader sees the old or the new set) is a paper lemma, not mechanised; spki_table_swap is not under contract.",
+        "trusted": ["pthread rwlock semantics"],
+        "assumptions": ["no schedule is explored"],
+    },
+    "C09": {
+        "level": "other",
+        "explanation": "Quick tier: the ghost-table units of the payload phase check that a refused PDU changes nothing (update_pfx). "
+                       "The callback log itself (one 'added' per successful add, one 'removed' per successful remove and per record "
+                       "purged by source, none on duplicate / not-found / error) is checked against the real table only in the "
+                       "thorough-tier history unit pfx_hist (bounded). pfx_table_notify_diff and pfx_table_free are not under contract.",
+        "trusted": [],
+        "assumptions": ["most of this property is covered only in the thorough tier"],
+    },
+    "C10": {
+        "level": "other",
+        "explanation": "key_entry_cmp = 0 exactly when AS, all 20 SKI bytes, all 91 key bytes and the source are equal; the record/entry "
+                       "conversions copy every byte (complete). The real ht-spkitable.c on the real tommyds hash table and list against "
+                       "the mathematical set over histories of 2 adds + 1 operation (add / remove / remove-by-source) + both lookups, with "
+                       "colliding AS numbers, shared SKIs, two sources, update callbacks and the lock protocol (bounded; table far below "
+                       "the first resize step, so tommy's grow/shrink steps are not covered; copy, swap and notify_diff not under contract).",
+        "trusted": ["third-party tommyds below the resize threshold is executed, not assumed; resize steps are not covered"],
+        "assumptions": [],
+    },
+    "C15": {
+        "level": "other",
+        "explanation": "One callback step of rtr_mgr_cb (real helpers, real tommy list) from an ARBITRARY manager state over the property's own "
+                       "domain (1..3 groups in ascending preference order x 1..2 sockets, any statuses, socket states and time stamps): "
+                       "ESTABLISHED only with every socket synchronised; becoming ESTABLISHED shuts down and reports CLOSED every "
+                       "less-preferred open group and nobody else; ERROR with no group ESTABLISHED starts the most-preferred closed "
+                       "group and no other. rtr_mgr_init rejects empty lists, empty groups and duplicate preferences, hands out no "
+                       "configuration on failure, frees nothing invalid, and presents groups in ascending order, all CLOSED. Because "
+                       "the pre-state is arbitrary the one-step claims extend to every event sequence. rtr_mgr_add_group / "
+                       "rtr_mgr_remove_group are not under contract.",
+        "trusted": ["libc qsort (insertion-sort stub for <= 3 elements), rtr_start / rtr_stop / rtr_init as logging stubs"],
+        "assumptions": ["the list is sorted by preference without duplicates on entry to the callback (established by rtr_mgr_init, unit mgr_init)"],
+    },
+    "C16": {
+        "level": "other",
+        "explanation": "Lock protocol per function, sequentially: the table roots are only meaningful inside a critical section (lock stubs park "
+                       "junk outside), so a read before the lock or after the unlock breaks the postcondition. Verified for "
+                       "pfx_table_validate_r (one read section, released on every path; unbounded unit validate_v4), pfx_table_swap "
+                       "(both write locks), and the router-key table operations (spki_hist: every operation one section, no double "
+                       "acquisition, released). Data-race freedom and linearizability follow only with the rwlock semantics (paper "
+                       "lemma); no interleaving is explored; pfx_table_for_each_* / pfx_table_free read the roots before locking "
+                       "(seen by reading; the history unit that would show it runs in the thorough tier).",
+        "trusted": ["pthread rwlock semantics"],
+        "assumptions": ["no schedule is explored"],
+    },
+    "C18": {
+        "level": "other",
+        "explanation": "Failure containment as postconditions with an allocator that may fail at every call: element-array delete/append "
+                       "(failed shrink restores, failed append changes nothing; any array length), rtr_store_prefix_pdu (buffer and index "
+                       "untouched), rtr_mgr_init (no success without a configuration, nothing invalid freed), router-key table "
+                       "operations in spki_hist (an operation fails only on allocation failure and then without effect). Allocator "
+                       "consistency (every block returned to the allocator it came from) is not decided by contracts; the mismatch in "
+                       "spki_table_free was found by reading and fixed.",
+        "trusted": [],
+        "assumptions": ["tommy_hashlin_init and its grow step use allocation results unchecked (third-party; reported in DESIGN.md, not covered)"],
+    },
+    "C19": {
+        "level": "other",
+        "explanation": "Partial. lrtr_ipv6_addr_to_str for all 2^128 addresses refuses buffers shorter than INET6_ADDRSTRLEN and never writes "
+                       "beyond INET6_ADDRSTRLEN bytes (sprintf replaced by an assumed length contract). lrtr_ipv6_str_to_addr on every "
+                       "text of at most 12 (quick) / 20 (thorough) characters without '.': memory-safe and DETERMINISTIC (2-safety: two runs "
+                       "with independent stack contents agree). Not decided: agreement with inet_pton, the round trip, the IPv4 pair.",
+        "trusted": ["libc sprintf length contract"],
+        "assumptions": ["embedded-IPv4 tails go through sscanf and are excluded"],
+    },
     "C04": {
         "level": "other",
         "explanation": "Memory-safety, assertion, shift and overflow obligations plus postconditions of the receive path for ALL byte "
@@ -201,7 +318,19 @@ DEL_LOOP = dict(function="pfx_table_del_elem", fingerprint=r"for \(unsigned int 
                            "((g_i + 1 >= i) ? (g_nd.ary[g_i + 1].asn == g_og1.asn && g_nd.ary[g_i + 1].max_len == g_og1.max_len && g_nd.ary[g_i + 1].socket == g_og1.socket) : 1)))",
                 decreases="g_nd.len - 1 - i")
 
+EXACT_LOOP = dict(
+    function="trie_lookup_exact", fingerprint=r"while \(root_node\)", macro_headers=["spec/spec.h", "units/trie_spine_macros.h"],
+    symbols=["root_node", "lvl", "prefix", "mask_len", "found"], globals=["g_n", "g_nodes", "g_k", "g_q", "g_ql"],
+    assigns="root_node, *lvl",
+    invariants="""(root_node != 0 && *lvl < g_n && root_node == &g_nodes[*lvl] && !*found &&
+                  ((g_k < *lvl) ? !(g_nodes[g_k].len == g_ql && SP_ADDR_EQ(g_nodes[g_k].prefix, g_q)) : 1) &&
+                  ((g_k >= 1 && g_k < *lvl && g_k < g_n) ? (g_nodes[g_k].len <= g_ql) : 1))""",
+    decreases="g_n - *lvl")
+
 UNITS = [
+    U(id="lookup_exact_v4", props=["C02"], file="units/trie_lookup_exact.c", entry="h_lookup_exact", defines=["STUB_IP"],
+      enforce=["trie_lookup_exact"], loops=[EXACT_LOOP], kind="unbounded", need_classes=["postcondition", "loop_invariant_step"],
+      native=None, timeout=1800, object_bits=6, stubs=["lrtr_ip_addr_get_bits", "lrtr_ip_addr_is_zero", "lrtr_ip_addr_equal"]),
     # ------------------------------------------------------------------ element arrays (C02, C01, C18)
     U(id="find_elem", props=["C02"], file="units/elems.c", entry="h_find_elem", defines=["H_ENTRY=h_find_elem"], enforce=["pfx_table_find_elem"],
       loops=[FIND_LOOP], kind="unbounded", need_classes=["postcondition", "loop_invariant_step"], native=None, stubs=["lrtr_realloc", "lrtr_free"]),
@@ -415,13 +544,14 @@ UNITS = [
       unwindset={"trie_remove": {"quick": 3, "thorough": 4}, "trie_insert": {"quick": 3, "thorough": 4},
                  "pfx_table_remove_id": {"quick": 3, "thorough": 4}, "pfx_table_for_each_rec": {"quick": 4, "thorough": 5}},
       object_bits=10, stubs=["lrtr_malloc", "lrtr_realloc", "lrtr_free", "pthread_rwlock_*", "lrtr_ip_addr_*"]),
-    U(id="spki_hist", props=["C10", "C16", "C18"], file="units/spki_hist.c", entry="h_spki_hist", enforce=[], plain=True,
+    U(id="spki_hist", props=["C10", "C16", "C18"], file="units/spki_hist.c", entry="h_spki_hist", enforce=[], plain=True, tier="thorough",
       checked_by_assertions=["spki_table_add_entry", "spki_table_remove_entry", "spki_table_src_remove", "spki_table_get_all",
                              "spki_table_search_by_ski", "key_entry_cmp", "tommy_hashlin_insert", "tommy_hashlin_remove",
                              "tommy_hashlin_remove_existing", "tommy_hashlin_search", "tommy_list_insert_tail", "tommy_list_remove_existing"],
-      need_classes=["assertion"], kind="bounded: histories of 2 adds + 1 operation (quick) / 3 + 1 (thorough), table below the first resize step",
-      tier_defines={"quick": {"KH_N": 2}, "thorough": {"KH_N": 3}}, bound=6, native=None, timeout={"quick": 1800, "thorough": 14000},
-      unwindset={"memcmp.0": 93, "key_eq.0": 93, "ski_eq.0": 22, "mk_key.0": 22, "mk_key.1": 93, "h_spki_hist.2": 22, "memcpy.0": 93},
+      need_classes=["assertion"], kind="bounded: histories of 1 add + 1 operation (quick) / 2 + 1 (thorough), table below the first resize step",
+      tier_defines={"quick": {"KH_N": 1}, "thorough": {"KH_N": 2}}, mem_gb=40, bound=22, native=None, timeout={"quick": 1800, "thorough": 14000},
+      unwindset={"memcmp.0": 93, "key_eq.0": 93, "mk_key.1": 93, "memcpy.0": 93, "tommy_hashlin_search.0": 5, "tommy_hashlin_remove.0": 5,
+                 "spki_table_get_all.0": 5, "spki_table_search_by_ski.0": 5, "spki_table_src_remove.0": 5, "tommy_hashlin_init.0": 7},
       object_bits=10, stubs=["lrtr_malloc", "lrtr_calloc", "lrtr_realloc", "lrtr_free", "pthread_rwlock_*"]),
     U(id="mgr_cb", props=["C15"], file="units/mgr.c", entry="h_mgr_cb", defines=["H_ENTRY=h_mgr_cb"], enforce=[], plain=True,
       checked_by_assertions=["rtr_mgr_cb", "rtr_mgr_close_less_preferable_groups", "get_best_inactive_rtr_mgr_group", "is_some_rtr_mgr_group_established",
@@ -452,10 +582,12 @@ UNITS = [
       bound=18, unwindset={"trie_remove": {"quick": 3, "thorough": 4}}, native=None, timeout=3000, allow_undefined=True, stubs=["lrtr_ip_addr_*"]),
     U(id="shape_insert", props=["C02"], file="units/trie_shape.c", entry="h_shape_insert", defines=["STUB_IP", "H_ENTRY=h_shape_insert"], enforce=[], plain=True,
       checked_by_assertions=["trie_insert", "swap_nodes", "add_child_node", "is_left_child"], need_classes=["assertion"],
-      kind="bounded: every trie shape of up to 3 (quick) / 4 (thorough) levels below the insertion point", tier_defines={"quick": {"TS_DEPTH": 3}, "thorough": {"TS_DEPTH": 4}},
-      bound=18, unwindset={"trie_insert": {"quick": 5, "thorough": 6}}, native=None, timeout=3000, allow_undefined=True, stubs=["lrtr_ip_addr_*"]),
+      kind="bounded: every trie shape of up to 2 (quick) / 3 (thorough) levels below the insertion point", tier_defines={"quick": {"TS_DEPTH": 2}, "thorough": {"TS_DEPTH": 3}},
+      bound=18, unwindset={"trie_insert": {"quick": 4, "thorough": 5}}, native=None, timeout=3000, allow_undefined=True, stubs=["lrtr_ip_addr_*"]),
     U(id="pfx_swap", props=["C06", "C16"], file="units/swap.c", entry="h_pfx_swap", enforce=["pfx_table_swap"], kind="complete", native=None,
       stubs=["pthread_rwlock_*"]),
+    U(id="lemma_path", props=["C01", "C02"], file="units/lemma.c", entry="h_lemma_path", enforce=[], plain=True, checked_by_assertions=[],
+      need_classes=["assertion"], kind="complete", native=None, allow_undefined=True),
     # ------------------------------------------------------------------ C20
     U(id="c20_state_names", props=["C20"], file="units/c20_state_names.c", entry="h_c20_state",
       enforce=["rtr_state_to_str"], kind="complete", bound=70,
